@@ -208,6 +208,10 @@ func TestC11(t *testing.T) {
 		// the maps the instance works with at the moment (RegisterNameMap / RegisterTypeMap replace them)
 		instNM, instTM := nm, tm
 		replacedMaps := false
+		// maps handed to the instance later on, with what they must hold at the end (what they held when handed
+		// over plus what was registered since): they are caller-supplied maps too
+		var handedNM, handedNMModel map[string]string
+		var handedTM, handedTMModel map[string]reflect.Type
 		nmBefore := copyNames(nm)
 		tmBefore := map[string]reflect.Type{}
 		for k, v := range tm {
@@ -434,6 +438,7 @@ func TestC11(t *testing.T) {
 							e.RegisterNameType(k, v)
 							if replacedMaps {
 								instNM[k] = v // (the instance's map is a copy made by this test: keep the model of it in step)
+								handedNMModel[k] = v
 							} else {
 								nmBefore[k] = v
 							}
@@ -450,6 +455,7 @@ func TestC11(t *testing.T) {
 							}
 							if replacedMaps {
 								instTM[k] = v
+								handedTMModel[k] = v
 							} else {
 								tmBefore[k] = v
 							}
@@ -463,22 +469,24 @@ func TestC11(t *testing.T) {
 					if kind == "Encoder" {
 						nm2 := copyNames(instNM)
 						nm2["unused.Name"] = "unused.WireName"
-						for _, k := range sortedNames(nm2) {
-							if k != nm2[k] && !strings.HasPrefix(k, "[") && k != "unused.Name" {
-								delete(nm2, k) // one custom class name less: the class goes by its Go name from now on
-								break
-							}
-						}
+						// (the new map stays complete: an encoder enters a class it does not find into its map, which
+						// it may do to a map that lacks it)
 						e.RegisterNameMap(nm2)
 						instNM = nm2
+						handedNM, handedNMModel = nm2, copyNames(nm2)
 					} else {
 						tm2 := map[string]reflect.Type{}
 						for k, v := range instTM {
 							tm2[k] = v
 						}
 						tm2["unused.OtherEntry"] = reflect.TypeOf(&zoo.K00{})
+						delete(tm2, "unused.PointerEntry") // an entry the instance has and the new map lacks
 						d.RegisterTypeMap(tm2)
 						instTM = tm2
+						handedTM, handedTMModel = tm2, map[string]reflect.Type{}
+						for k, v := range tm2 {
+							handedTMModel[k] = v
+						}
 					}
 					replacedMaps = true
 					note("replace-maps", -1)
@@ -631,6 +639,12 @@ func TestC11(t *testing.T) {
 		}
 		if noNames {
 			r.Label("instance works without names")
+		}
+		if handedNM != nil && !reflect.DeepEqual(handedNM, handedNMModel) {
+			failf(rt, c, "C11 %s: the name map handed over with RegisterNameMap was modified behind the caller's back; history %v", kind, hist)
+		}
+		if handedTM != nil && !reflect.DeepEqual(handedTM, handedTMModel) {
+			failf(rt, c, "C11 %s: the type map handed over with RegisterTypeMap was modified behind the caller's back (has %v); history %v", kind, mapKeys(handedTM), hist)
 		}
 		if !noNames && !reflect.DeepEqual(nm, nmBefore) {
 			failf(rt, c, "C11 %s: the complete caller-supplied name map was modified; history %v", kind, hist)
